@@ -1,6 +1,6 @@
 (* GENERATED ONCE by tools/pin.py from Properties/C02.v and committed: the pinned statements. *)
 From VF.Properties Require C02.
-From VF Require Import Base Gen_Errors Lexer Mnemonic Grammar Response Tree HeaderSpec Header_proofs.
+From VF Require Import Base Gen_Errors Lexer Mnemonic Grammar Response Tree HeaderSpec Header_proofs MessageSpec Message_proofs.
 Open Scope N_scope.
 
 Section C02_statements.
@@ -44,4 +44,8 @@ Proof. apply VF.Properties.C02.C02_unit_relative. Qed.
 Goal forall (root : tree D) toks d f,
   run_tokens root toks d f = unit_loop (S (length toks)) root root (mkX toks d f []).
 Proof. apply VF.Properties.C02.C02_message_starts_at_root. Qed.
+Goal forall (root : tree D) (m : msg) (d : D) (f : fmt),
+  wf_tree root -> wf_msg m = true ->
+  run root (render_msg m) d f = Val (spec_message root m d f).
+Proof. apply VF.Properties.C02.C02_message_semantics. Qed.
 End C02_statements.
